@@ -48,8 +48,6 @@ def r1_registry(chk: Check):
         if n.kind == "stmt":
             if isinstance(n.ast, ast.Assign) and src(n.ast.targets[0]).startswith("self.jobs["):
                 out.append("register " + src(n.ast.value))
-            if isinstance(n.ast, ast.AugAssign) and src(n.ast.target).endswith("unfinishedJobs"):
-                out.append("count")
             if isinstance(n.ast, ast.Return):
                 v = n.ast.value
                 out.append("return " + ("None" if v is None or (isinstance(v, ast.Constant) and v.value is None) else "registered" if isinstance(v, ast.Name) else src(v)))
@@ -57,9 +55,9 @@ def r1_registry(chk: Check):
 
     stop = lambda n: "exit" if n is g.exit else ("raise" if n is g.raise_ else None)
     want = {
-        (False, False): ({"register job", "count", "return None"}, "a new identifier is registered, counted, and None is returned"),
+        (False, False): ({"register job", "return None"}, "a new identifier is registered and None is returned"),
         (True, False): ({"return registered"}, "an identifier already registered (and not failed) returns the registered job and registers / counts nothing"),
-        (True, True): ({"count", "return None"}, "re-submission of a failed job is counted and returns None"),
+        (True, True): ({"return None"}, "re-submission of a failed job returns None (a new job is run)"),
     }
     for (present, error), (evs, text) in want.items():
         outs = walk_table(g, g.entry, classify, {"exitmode": False, "present": present, "error": error, "assert": True}, events, stop)
